@@ -121,6 +121,8 @@ structure Config where
   prop : String := "-"
   proj : String := "calls"        -- api < image < writes < calls : how much is compared
   maxReport : Nat := 100
+  /-- only the oracles run (no comparison with the model): for suites used by a property for its oracles alone -/
+  nomodel : Bool := false
   upper : Std.HashMap Nat (List Nat) := {}
 
 def projLevel (p : String) : Nat :=
@@ -382,7 +384,7 @@ partial def loop {σ : Type} (ctx : Ctx σ) (inp : IO.FS.Stream) (st : Stats) (h
   | "H" :: id :: scen :: _, _ =>
     loop ctx inp { st with hists := st.hists + 1, hashes := st.hashes }
       (some { header := line, id := id, scenario := scen, ost := ctx.oracle.init line,
-              sess := newSession ctx.cfg 0, implImg := Img.empty 0 })
+              sess := newSession ctx.cfg 0, implImg := Img.empty 0, tracking := !ctx.cfg.nomodel })
   | ["dev", sz], some h =>
     let n := sz.toNat?.getD 0
     loop ctx inp st (some { h with sess := newSession ctx.cfg n, implImg := Img.empty n })
@@ -451,6 +453,7 @@ def parseArgs : List String → Config → Config
   | "--prop" :: p :: rest, c => parseArgs rest { c with prop := p }
   | "--proj" :: p :: rest, c => parseArgs rest { c with proj := p }
   | "--max-report" :: n :: rest, c => parseArgs rest { c with maxReport := n.toNat?.getD 100 }
+  | "--nomodel" :: rest, c => parseArgs rest { c with nomodel := true }
   | _ :: rest, c => parseArgs rest c
   | [], c => c
 
